@@ -443,7 +443,8 @@ class C18(PropertyCheck):
             live = []
             for name, meth in comp.gate_compiler.items():
                 two = name in ("ISWAP", "SQRTISWAP", "RZX")
-                g = Gate(name, targets=[0, 1] if two else [1], controls=([0] if name == "CNOT" else None), arg_value=0.7)
+                # angle above a quarter turn: the amplitude is the hardware strength itself (no small-angle floor)
+                g = Gate(name, targets=[0, 1] if two else [1], controls=([0] if name == "CNOT" else None), arg_value=2.5)
                 before = getattr(comp, "global_phase", 0.0)
                 comp.global_phase = before
                 with warnings.catch_warnings():
